@@ -362,6 +362,53 @@ pub fn gen_rules_world(seed: u64) -> SupplyTrace {
             actor: ActorScript { id: "root#insp".into(), ops, stdout: vec![], stderr: vec![], exit: ExitSpec::Code(0) },
         });
         labels.push("INSPECTION".into());
+        // a second inspection in half of these worlds (own stream): it finds the first one's link file in the working
+        // directory; either may refer to the other — the rules of all inspections are applied after all have run
+        let mut sr = Rng::stream(seed, "second-inspection");
+        if sr.chance(1, 2) {
+            let mut both = names.clone();
+            both.push("insp".to_string());
+            both.push("audit".to_string());
+            let mut ops2 = vec![];
+            for _ in 0..sr.below(3) {
+                match sr.below(3) {
+                    0 => ops2.push(FsOp::Write { path: sr.pick(&names_pool).to_string(), content: format!("content-{}", sr.below(4)) }),
+                    1 => ops2.push(FsOp::Append { path: sr.pick(&names_pool).to_string(), content: "+".into() }),
+                    _ => ops2.push(FsOp::Remove { path: sr.pick(&names_pool).to_string() }),
+                }
+            }
+            let mut em2 = rule_list(&mut sr, &both);
+            let ep2 = rule_list(&mut sr, &both);
+            if sr.chance(1, 3) {
+                let front: Rule = match sr.below(3) {
+                    0 => vec!["DISALLOW".into(), "insp.link".into()],
+                    1 => vec!["REQUIRE".into(), "insp.link".into()],
+                    _ => vec!["DISALLOW".into(), "*.link".into()],
+                };
+                em2.insert(0, front);
+            }
+            // a forward reference: the first inspection matches against the second one's link
+            if sr.chance(1, 2) {
+                if let Some(first) = root.layout.inspect.last_mut() {
+                    let f = sr.pick(&names_pool).to_string();
+                    let side = if sr.chance(1, 2) { "MATERIALS" } else { "PRODUCTS" };
+                    let rule: Rule = vec!["MATCH".into(), f.clone(), "WITH".into(), side.into(), "FROM".into(), "audit".into()];
+                    let list = if sr.chance(1, 2) { &mut first.exp_mat } else { &mut first.exp_prod };
+                    list.insert(0, rule);
+                    if sr.chance(1, 2) {
+                        list.insert(1, vec!["DISALLOW".into(), f]);
+                    }
+                }
+                labels.push("INSPECTION-FORWARD-REFERENCE".into());
+            }
+            root.layout.inspect.push(InspSpec {
+                name: "audit".into(),
+                exp_mat: em2,
+                exp_prod: ep2,
+                actor: ActorScript { id: "root#audit".into(), ops: ops2, stdout: vec![], stderr: vec![], exit: ExitSpec::Code(0) },
+            });
+            labels.push("TWO-INSPECTIONS".into());
+        }
     }
     SupplyTrace { keys, root, caller: vec![(0, 0)], clock: vec![(now, 0)], hash_seeds: vec![r.next()], arrivals: vec![r.next()], file_faults: vec![], labels, work_files, caller_json_alias: vec![], step_name: None, rel_link_dir: false, read_faults: None, fixed_mtime: false, mtime_backwards: false, link_dir_style: 0, work_links: vec![], tz: None, same_thread: gen::same_thread_block(seed), via_symlink: None, mem_sigdup: vec![], in_place: false, read_eio: None, alt_dir_on_odd_reps: false, concurrent: 0 }
 }
